@@ -16,7 +16,7 @@ func init() { Registry["C11"] = c11 }
 
 func c11(e *Env) {
 	r := e.R
-	r.Explanation = "Decides the structural conditions for 'provenance survives restarts': (R1) type level: every field of the audit record type is exported, carries no json tag that drops or renames it asymmetrically (no \"-\"), the type has no custom (Un)MarshalJSON, and every field type is in the closed set encoding/json round-trips (string, time.Time, time.Duration, map[string]string, map[string]*AuditInfo); (R2) writer and reader agree: the writer serialises the IP's *AuditInfo with encoding/json and replaces the whole file at AuditFilePath() (truncating write), the reader unmarshals the bytes of the same path into the same Go type; (R3) FileIP.AuditInfo fills a nil cache from the file under the IP lock; an unreadable or unparsable file is fatal, a missing file yields an empty record; NewFileIP loads the record of an existing file; (R4) the audit record of every output is on disk before the output is renamed to its final path, so a file a resumed run takes from disk always has its record (shared with C03.R3), and Upstream takes the loaded record of every input (shared with C10.R1)."
+	r.Explanation = "Decides the structural conditions for 'provenance survives restarts': (R1) type level: every field of the audit record type is exported, carries no json tag that drops or renames it asymmetrically (no \"-\"), the type has no custom (Un)MarshalJSON, and every field type is in the closed set encoding/json round-trips (string, time.Time, time.Duration, map[string]string, map[string]*AuditInfo); (R2) writer and reader agree: the writer serialises the IP's *AuditInfo with encoding/json and replaces the whole file at AuditFilePath() (truncating write), the reader unmarshals the bytes of the same path into the same Go type; (R3) FileIP.AuditInfo fills a nil cache from the file under the IP lock; an unreadable or unparsable file is fatal, a missing file yields an empty record; NewFileIP loads the record of an existing file; (R4) the audit record of every output is on disk before the output is renamed to its final path, so a file a resumed run takes from disk always has its record (shared with C03.R3), and Upstream takes the loaded record of every input (shared with C10.R1); (R5) the record is complete before its first write (shared with C10.R5); (R6) a record never shares its Tags map with another record (shared with C10.R4): otherwise a tag added downstream shows up in the in-memory records of the ancestors of an uninterrupted run but not in the records a resumed run loads from disk."
 	r.NotDecided = "equality of lineages across concrete run histories; byte-level stability of the JSON encoding."
 	p := e.P
 	ai := p.Named("scipipe", "AuditInfo")
@@ -103,6 +103,8 @@ func c11(e *Env) {
 	}
 	// ---- R5 shared with C10.R5: the record a resumed run reads from disk is complete
 	e.recordCompleteBeforeWrite("R5")
+	// ---- R6 shared with C10.R4: ancestor records in memory stay what is on disk
+	e.freshTagsMap("R6")
 	ob4b := r.Ob("R4", "audit-builder:Upstream←loaded-record", "Upstream entries take FileIP.AuditInfo() of the input, i.e. the record loaded from disk when the input was not recomputed")
 	if bfn, _ := e.auditBuilder(); bfn != nil {
 		found := false
